@@ -232,6 +232,20 @@ for k, v in TECH_ADD12.items():
     t, txt, note, ref = CLAIMED[k]
     CLAIMED[k] = (t + v, txt, note, ref)
 
+TECH_ADD13 = {
+ "C03": "; a store into the map a loop ranges over, under another key than the loop's, is order dependent (R03.1)",
+ "C04": "; a function that is handed an io.Writer but renders into a buffer of its own passes a call involving the writer on every path to a return that can succeed (R04.15)",
+ "C07": "; R07.7 follows helpers that apply the node's filter and write the result",
+ "C08": "; LiteralNodes built from the Value of a token found to be TOKEN_STRING go through the same decoding function at every site (R08.20)",
+ "C12": "; no map or slice handed to a node constructor in the parser is a container kept in a field of the Parser (R12.14); R12.4 follows helpers that are handed the call node",
+ "C13": "; searches for the tag openers {% and {# happen in methods of the tokenizer only (R13.8); an array indexed by Token.Type is longer than the largest TOKEN_ constant (R13.9)",
+ "C17": "; from a propagating call no path reaches a `return …, nil` without crossing a test or use of the call's error (R17.1)",
+ "C20": "; no plain m[key] on a typed data map (element type not an interface) is boxed and handed out: absence must be visible (R20.10)",
+}
+for k, v in TECH_ADD13.items():
+    t, txt, note, ref = CLAIMED[k]
+    CLAIMED[k] = (t + v, txt, note, ref)
+
 NOT_YET = "static rule for this property not implemented yet at this commit (planned, see DESIGN.md §2)"
 NA = {}
 
